@@ -196,7 +196,7 @@ func coreTopLevelRules(r *Run, silentRule, exitRule string) {
 			}
 		}
 		// the error exit
-		if isNilErrorResult(p.results[1]) {
+		if p.knownNil(p.results[1]) {
 			continue
 		}
 		nErr++
@@ -391,7 +391,7 @@ func coreBlockRules(r *Run, foldRule, endRule string) {
 	// the accumulator: what the block returns when no statement ran
 	var base ssa.Value
 	for _, p := range paths {
-		if p.end == "return" && len(p.results) == 2 && isNilErrorResult(p.results[1]) {
+		if p.end == "return" && len(p.results) == 2 && p.knownNil(p.results[1]) {
 			calls := 0
 			for _, ev := range p.events {
 				if c, ok := ev.(*ssa.Call); ok && c.Call.StaticCallee() == m.stmt {
@@ -412,7 +412,7 @@ func coreBlockRules(r *Run, foldRule, endRule string) {
 	arms := map[string]*armVerdict{}
 	endsOK, endsN := true, 0
 	for _, p := range paths {
-		if p.end != "return" || len(p.results) != 2 || !isNilErrorResult(p.results[1]) {
+		if p.end != "return" || len(p.results) != 2 || !p.knownNil(p.results[1]) {
 			continue
 		}
 		// the statement's value on this path
@@ -466,6 +466,7 @@ func coreBlockRules(r *Run, foldRule, endRule string) {
 		if p.revisits > 0 {
 			endsOK = false
 		}
+		_ = p.revisited
 		if exitKind == "" {
 			continue
 		}
@@ -647,7 +648,7 @@ func coreReturnRule(r *Run, rule string) {
 	nWrap, okAll := 0, true
 	why := ""
 	for _, p := range paths {
-		if p.end != "return" || len(p.results) != 2 || !isNilErrorResult(p.results[1]) {
+		if p.end != "return" || len(p.results) != 2 || !p.knownNil(p.results[1]) {
 			continue
 		}
 		// is the statement a `return` on this path?
